@@ -157,6 +157,33 @@ fn any_checks(r: &mut Rng, m: &mut Vec<String>) {
             _ => {}
         }
     }
+    // every truncation of a text with multi-byte characters, through the serde-lexpr reader entry points: the category and
+    // location are the parser's (a cut inside a character is "more data needed", not an I/O or syntax error)
+    let text = "(\"grüße\" \"naïve\" λ #\\é)".as_bytes();
+    for k in 0..text.len() {
+        let a = serde_lexpr::from_reader::<Vec<String>>(&text[..k]);
+        let b = serde_lexpr::from_slice::<Vec<String>>(&text[..k]);
+        let p = lexpr::from_reader(&text[..k]);
+        if let (Err(ea), Err(eb), Err(pe)) = (&a, &b, &p) {
+            let (ca, cb, pc) = (format!("{:?}", ea.classify()), format!("{:?}", eb.classify()), format!("{:?}", pe.classify()));
+            let la = ea.location().map(|l| (l.line(), l.column()));
+            if ca != pc || cb != pc || la != pe.location().map(|l| (l.line(), l.column())) {
+                m.push(format!("FAIL C19 serde_lexpr::from_reader / from_slice on the first {} bytes report {} / {} at {:?}, the parser reports {}", k, ca, cb, la, pc));
+            }
+        }
+    }
+    // 128-bit integers: refused, or the integer of the same mathematical value (never a wrapped one)
+    for x in [1i128 << 63, (1i128 << 64) - 1, (1i128 << 63) + 12345, -(1i128 << 63), i64::MAX as i128, -1, 0, 1i128 << 64, -(1i128 << 63) - 1] {
+        if let Ok(v) = serde_lexpr::to_value(&x) {
+            let got = v.as_u64().map(|u| u as i128).or(v.as_i64().map(|i| i as i128));
+            if got != Some(x) { m.push(format!("FAIL C14 the i128 {} is serialized as {}", x, v)); }
+        }
+        if x >= 0 {
+            if let Ok(v) = serde_lexpr::to_value(&(x as u128)) {
+                if v.as_u64().map(|u| u as i128) != Some(x) { m.push(format!("FAIL C14 the u128 {} is serialized as {}", x, v)); }
+            }
+        }
+    }
     // a failing reader: I/O category, the error kept as source; a failing writer: an error, not success
     let rd = crate::ops::make_reader("x2", b"(1 2 3)");
     match serde_lexpr::from_reader::<Vec<u8>>(rd) {
